@@ -110,6 +110,23 @@ def run(b, ps, tier, seed):
     violations += v2
     v3, ncorpus = TS.corpus_check(b, PROP, "wf", TS.proj_c10)
     violations += v3
+    # the CHECKER's use of the well-formedness checks: annotation types reach them in LISTS (all annotations of a function,
+    # accumulated over the functions; assumed names; process types).  Verdict of the real checker against the model on
+    # programs with several look-alike annotations of which one is ill-moded (lib/vlib/declshapes.py fam_annlists) and on
+    # the mode families: a type that is not well-formed must be refused wherever it stands in such a list.
+    ntc = 0
+    if impl and not b.probe_error and not b.model_error:
+        from .. import declshapes as DS
+        from .. import suite as S
+        from .. import lingen as LG
+        tcases = [(i, k, t) for i, k, t in DS.fam_annlists()] + [(i, k, t) for i, k, t in DS.fam_modes()]
+        ntc = len(tcases)
+        ti, tm, tmis = S.correspond(b, "tc", tcases, project=LG.verdict, timeout=900)
+        for i, k, t, a, m in tmis[:4]:
+            violations.append(C.Violation(
+                "the checker's verdict on a program with several annotation types differs from the model (%s): %s vs %s" % (i, LG.verdict(a), LG.verdict(m)),
+                {"property": PROP, "kind": "checker-annotation-list", "suite": "tc", "input_text": t, "input_hex": t.encode("latin1").hex(),
+                 "implementation": a[:400], "model": m[:400]}))
     known, nknown, known_seen = TS.known_lines(PROP, kn, kn2)
     if impl and cnt.get("parse-err", 0) + (cnt2.get("class:PARSE-ERR", 0) if cnt2 else 0) > 0:
         violations.append(C.Violation("generated type environments no longer parse (%d texts): the suite does not exercise the property" % cnt.get("parse-err", 0),
@@ -130,6 +147,7 @@ def run(b, ps, tier, seed):
         "wf_counters": dict(cnt) if cnt else {},
         "wfann_counters": dict(cnt2) if cnt2 else {},
         "corpus_cases": ncorpus,
+        "checker_level_cases": ntc,
         "known_finding_cases": nknown,
         "known_findings_seen": known_seen,
     }
@@ -146,5 +164,16 @@ def run(b, ps, tier, seed):
 
 
 def replay(b, path):
+    import json
+    r = json.load(open(path))
+    if r.get("suite") == "tc" and "input_hex" in r:
+        from .. import suite as S
+        from .. import lingen as LG
+        t = bytes.fromhex(r["input_hex"]).decode("latin1")
+        a = S.run_tool(b.probe, "tc", [("x", "", t)], timeout=60).get("x", "MISSING")
+        m = S.run_tool(b.model, "tc", [("x", "", t)], timeout=60).get("x", "MISSING")
+        print("implementation:", a[:300])
+        print("model (proved): ", m[:300])
+        return 0 if LG.verdict(a) == LG.verdict(m) else 1
     return TS.replay_generic(b, PROP, path, lambda sub: TS.proj_c10 if sub == "wf" else TS.proj_ann,
                              lambda sub: spec_check_wf if sub == "wf" else spec_check_ann)
